@@ -29,6 +29,7 @@ class OwnSpec:
         self.extra_classes = list(extra_classes)  # (relpath, class) of subclasses whose methods also mutate the fields
         self.ctor_kw = ctor_kw or {}  # constructor keyword -> field name (when copy() calls the constructor)
         self.shallow_self_copy = shallow_self_copy
+        self.any_base = shallow_self_copy
 
 
 def _src(relpath):
@@ -40,9 +41,12 @@ def _class(relpath, name):
     return next(n for n in tree.body if isinstance(n, ast.ClassDef) and n.name == name)
 
 
+ANY_BASE = False  # True: <any local name>.<field> counts (objects obtained by copy.copy(self) are aliases of the same class)
+
+
 def _self_field(node, fields, selfname="self"):
     """node == self.<f>  ->  f"""
-    if isinstance(node, ast.Attribute) and isinstance(node.value, ast.Name) and node.value.id == selfname and node.attr in fields:
+    if isinstance(node, ast.Attribute) and isinstance(node.value, ast.Name) and (node.value.id == selfname or ANY_BASE) and node.attr in fields:
         return node.attr
     return None
 
@@ -128,7 +132,10 @@ def mutation_sites(cls_node, fields):
         for n in ast.walk(m):
             if isinstance(n, (ast.Assign, ast.AugAssign, ast.Delete)):
                 targets = n.targets if isinstance(n, (ast.Assign, ast.Delete)) else [n.target]
+                flat = []
                 for t in targets:
+                    flat.extend(t.elts if isinstance(t, (ast.Tuple, ast.List)) else [t])
+                for t in flat:
                     if isinstance(t, ast.Subscript):
                         r = obj_level(t.value)
                         if r:
@@ -141,6 +148,15 @@ def mutation_sites(cls_node, fields):
 
 
 def check(spec: OwnSpec):
+    global ANY_BASE
+    ANY_BASE = bool(getattr(spec, "any_base", False))
+    try:
+        return _check(spec)
+    finally:
+        ANY_BASE = False
+
+
+def _check(spec: OwnSpec):
     t0 = time.time()
     rep = api.FunctionReport.__new__(api.FunctionReport)
     rep.key = f"{spec.relpath}:{spec.cls}.{spec.copy_method}[ownership]"
